@@ -84,6 +84,10 @@ func (cfg *Configuration) execHook(rl *release.Release, hook release.HookEvent, 
 		if _, err := cfg.KubeClient.Create(resources); err != nil {
 			h.LastRun.CompletedAt = helmtime.Now()
 			h.LastRun.Phase = release.HookPhaseFailed
+			// clean up the hooks of this event that already succeeded, as the readiness-failure path does
+			if errDeleting := cfg.deleteHooksByPolicy(executingHooks[0:i], release.HookSucceeded, waitStrategy, timeout); errDeleting != nil {
+				log.Printf("error deleting succeeded hooks after a hook failure: %v", errDeleting)
+			}
 			return errors.Wrapf(err, "warning: Hook %s %s failed", hook, h.Path)
 		}
 
